@@ -187,6 +187,14 @@ class Row(Vector):
 	def __len__(self):
 		return len(self._raw_cols)
 
+	def __deepcopy__(self, memo):
+		# A row is a view of its table; its copy (r == r and r - r copy an operand that
+		# is the vector itself) is a plain vector of the row's cells
+		return self.copy()
+
+	def __copy__(self):
+		return self.copy()
+
 
 class Table(Vector):
 	""" Multiple columns of the same length """
@@ -238,6 +246,14 @@ class Table(Vector):
 		
 		# Build column map
 		self._column_map = self._build_column_map()
+
+	def __deepcopy__(self, memo):
+		# (the copy module builds a bare instance and probes it for __setstate__, which the
+		# column lookup of __getattr__ cannot answer before the table has its columns)
+		return self.copy()
+
+	def __copy__(self):
+		return self.copy()
 
 	def __len__(self):
 		if len(self._underlying) == 0:
